@@ -175,7 +175,7 @@ let spec_case (line : string) : string =
             let conv_bad = match q, n, fa with
               | V (fa0, _), 0, Some x -> x <> fa0 | _ -> false in
             if conv_bad then "fulladdr_conv changed the address without a successful conversion" else
-            clause (int_of_n (SysSpec.judge s c.rcaps mem (nat_of_int (d + 2)) (nat_of_int 2)
+            clause (int_of_n (SysSpec.judge s c.rcaps mem (nat_of_int (d + 1)) (nat_of_int 2)
                                 caps opret src st calls (nat_of_int d)))) c.queries answers))
   | _ -> failwith "bad spec line"
 
